@@ -134,9 +134,14 @@ class C11(Check):
 
     # -- known findings: region predicates ------------------------------------------------------------
     def region(self, case, obs):
-        """id of the listed known finding (status "known") whose region contains this failing case, else None.
-        All findings of the build round are fixed in the current tree (known/C11.json, status "fixed"), so no region
-        is exempted any more: every changed-after-rejection is reported."""
+        """id of the listed known finding (status "known") whose region contains this failing case, else None"""
+        m = case['mutator']
+        exc = obs['exc']
+        if self.finding_status.get('C11-nsinsert-partial-clean') == 'known' and \
+                m in ('CSSStyleSheet.insertRule', 'CSSStyleSheet.add', '_Namespaces.__setitem__') and \
+                isinstance(exc, xml.dom.NoModificationAllowedErr) and \
+                'NamespaceURI defined in this rule is used' in str(exc):
+            return 'C11-nsinsert-partial-clean'
         return None
 
     RO_MISSING = set()
@@ -256,6 +261,8 @@ class C11(Check):
                          'first_differences': [(p, repr(a)[:160], repr(b)[:160]) for p, a, b in obs['diff'][:4]]},
                         known=self.region(case, obs))
         # ---- correspondence (model vs implementation)
+        if outcome == 'dom' and obs['changed'] and self.region(case, obs):
+            return      # inside the region of a listed finding the child call is known not to be atomic
         if rec is None or outcome == 'other' or not ctx.model_ok or obs['trace'] is None:
             if outcome == 'other':
                 ctx.count('non-dom-exception:' + type(obs['exc']).__name__)
